@@ -439,3 +439,153 @@ Fixpoint parse_flat (ps : list str) : result (list node) :=
   end.
 Definition parse_segments_flat (text : str) : result (list node) := parse_flat (pieces text).
 End Real.
+
+(* ---------- instance families of a message structure (vocabulary of C08_prescribed) ----------
+   The forest a structure PRESCRIBES for an instance generated from it:
+     IReq   every child with min >= 1, once (a required group none of whose members is required
+            is given its first member, so that it can appear in ER7 at all)
+     IAll   every child once
+     IRep2  every child once, every repeatable group (max = -1 or > 1) at nesting depth < 3 twice
+   Groups that would have no segment at all are left out (they cannot be written in ER7). *)
+Inductive imode := IReq | IAll | IRep2.
+Inductive etree := ES (name : str) | EG (name : str) (cs : list etree).
+
+Definition row_card (x : srow) : Z * Z :=
+  match x with SByName _ _ mn mx | SIn _ _ _ mn mx => (mn, mx) | SRowBad => (0, 0)%Z end.
+
+Section Instances.
+Variable t : tables.
+
+Definition copies (m : imode) (k : kind) (depth : nat) (c : Z * Z) : nat :=
+  match m with
+  | IReq => if (1 <=? fst c)%Z then 1 else 0
+  | IAll => 1
+  | IRep2 => match k with
+             | GRP => if ((snd c =? -1)%Z || (1 <? snd c)%Z) && Nat.ltb depth 3 then 2 else 1
+             | _ => 1
+             end
+  end.
+
+(* the first member of a group, down to a segment *)
+Fixpoint first_member (fuel : nat) (r : sref) : list etree :=
+  match fuel with
+  | O => []
+  | S f =>
+      match rows_of t r with
+      | Ok (x :: _) =>
+          match row_name_kind x with
+          | Some (SEG, n) => [ES n]
+          | Some (GRP, n) => match row_ref t x with
+                             | Ok gr => match first_member f gr with [] => [] | k => [EG n k] end
+                             | Err _ => []
+                             end
+          | _ => []
+          end
+      | _ => []
+      end
+  end.
+
+Fixpoint instance (fuel : nat) (m : imode) (depth : nat) (r : sref) : list etree :=
+  match fuel with
+  | O => []
+  | S f =>
+      match rows_of t r with
+      | Err _ => []
+      | Ok rows =>
+          flat_map (fun x =>
+            match row_name_kind x with
+            | Some (SEG, n) => repeat (ES n) (copies m SEG depth (row_card x))
+            | Some (GRP, n) =>
+                match row_ref t x with
+                | Ok gr =>
+                    let kids := instance f m (S depth) gr in
+                    let kids := match kids, m with
+                                | [], IReq => first_member f gr
+                                | _, _ => kids
+                                end in
+                    match kids with
+                    | [] => []
+                    | _ => repeat (EG n kids) (copies m GRP depth (row_card x))
+                    end
+                | Err _ => []
+                end
+            | _ => []
+            end) rows
+      end
+  end.
+
+(* every SEG name of the structure, groups included *)
+Fixpoint seg_places (fuel : nat) (r : sref) : list str :=
+  match fuel with
+  | O => []
+  | S f =>
+      match rows_of t r with
+      | Err _ => []
+      | Ok rows =>
+          flat_map (fun x =>
+            match row_name_kind x with
+            | Some (SEG, n) => [n]
+            | Some (GRP, _) => match row_ref t x with Ok gr => seg_places f gr | Err _ => [] end
+            | _ => []
+            end) rows
+      end
+  end.
+End Instances.
+
+Fixpoint eflatten_tree (x : etree) : list str :=
+  match x with
+  | ES n => [n]
+  | EG _ cs => (fix go (l : list etree) : list str :=
+                  match l with [] => [] | y :: r => eflatten_tree y ++ go r end) cs
+  end.
+Definition eflatten (f : list etree) : list str := flat_map eflatten_tree f.
+Fixpoint dump_etree (x : etree) : str :=
+  match x with
+  | ES n => n
+  | EG g cs => "(" ++ g ++ (fix go (l : list etree) : str :=
+                             match l with [] => [] | y :: r => " " ++ dump_etree y ++ go r end) cs ++ ")"
+  end.
+Definition dump_eforest (f : list etree) : str := bjoin " " (map dump_etree f).
+
+Definition inst_fuel : nat := 12.
+(* the segment names of the structure each occur at a single place, none is the wildcard *)
+Definition unique_places (t : tables) (r : sref) : bool :=
+  let ps := seg_places t inst_fuel r in
+  nodupb streqb ps && negb (smem "ANYHL7SEGMENT" ps).
+
+(* the search returns exactly the prescribed forest, every segment placed *)
+Definition prescribed_ok (t : tables) (m : imode) (r : sref) : bool :=
+  let exp := instance t inst_fuel m 0 r in
+  match find_groups_names t r (eflatten exp) with
+  | Ok f => streqb (dump_nforest f) (dump_eforest exp) &&
+            match unplaced f with [] => true | _ => false end
+  | Err _ => false
+  end.
+Definition imodes : list imode := [IReq; IAll; IRep2].
+Definition failing_structures (t : tables) : list str :=
+  map fst (filter (fun p => unique_places t (snd p) &&
+                            negb (forallb (fun m => prescribed_ok t m (snd p)) imodes))
+                  (t_messages t)).
+
+(* cardinality conformance of a forest of names against the reference of its parent: no declared
+   child occurs more often than its maximum (the upper half of what validate() checks) *)
+Definition count_named_n (n : str) (f : list ntree) : nat :=
+  length (filter (fun x => streqb (child_name (fun a : str => a) x) n) f).
+Fixpoint within_max (t : tables) (fuel : nat) (r : sref) (f : list ntree) {struct fuel} : bool :=
+  match fuel with
+  | O => false
+  | S fu =>
+      match rows_of t r with
+      | Err _ => false
+      | Ok rows =>
+          forallb (fun x => match row_name_kind x with
+                            | Some (_, n) => let mx := snd (row_card x) in
+                                             (mx =? -1)%Z || (Z.of_nat (count_named_n n f) <=? mx)%Z
+                            | None => false
+                            end) rows &&
+          forallb (fun x => match x with
+                            | GS _ _ => true
+                            | GG _ gr _ cs => within_max t fu gr cs
+                            end) f
+      end
+  end.
